@@ -27,9 +27,14 @@ Public entry points
     q_unnormalised(model, **params) -> (Q, pi)
     q_normalised(model, **params)   -> (Qn, pi)
     p_t(Qn, t)                      -> expm(t Qn)            (t scalar)
+    p_ts(Qn, ts)                    -> array of shape ts.shape + (k, k)
     transition(model, t, **params)  -> P(t) with the shape of t + (k, k)
-    normalise(Q, pi), norm(Q, pi), expm_mp(M, dps), structure(Q, pi)
-    codon_states(code), codon_pair_classes(code), GENETIC_CODES
+    from_q(Q, pi)                   -> normalised version of a matrix taken from a model (LG / WAG)
+    normalise(Q, pi), norm(Q, pi), structure(Q, pi), from_exchangeabilities(R, pi)
+    expm_mp(M, dps), p_t_reversible_mp(Qn, pi, t, dps), p_t_reversible_eigh(Qn, pi, t)   (audits)
+    codon_states(code), codon_amino_acids(code), codon_pair_classes(code), GENETIC_CODES, CODE_NAMES
+
+torchtree's class names (GeneralSymmetricSubstitutionModel, ...) are accepted as aliases.
 
 `model` is one of MODELS; parameters are plain numbers / sequences:
     JC69()                                   HKY(kappa, frequencies)
@@ -38,11 +43,16 @@ Public entry points
     GeneralNonSymmetric(mapping, rates, frequencies)
     MG94(kappa, alpha, beta, frequencies, genetic_code)
 """
+import functools
 import itertools
 
 import numpy as np
 
 MODELS = ("JC69", "HKY", "GTR", "GeneralJC69", "GeneralSymmetric", "GeneralNonSymmetric", "MG94")
+ALIASES = {
+    "GeneralSymmetricSubstitutionModel": "GeneralSymmetric",
+    "GeneralNonSymmetricSubstitutionModel": "GeneralNonSymmetric",
+}
 
 # --------------------------------------------------------------------------- genetic codes
 # NCBI translation tables, written in NCBI's own order (T, C, A, G; TTT TTC TTA TTG TCT ...).
@@ -116,7 +126,19 @@ def codon_amino_acids(code):
     return [a for a in tab if a != "*"]
 
 
+@functools.lru_cache(maxsize=None)
+def _pair_classes(code):
+    return _pair_classes_uncached(code)
+
+
 def codon_pair_classes(code):
+    """for the n sense codons of `code`: integer matrix ndiff (number of differing positions)
+    and boolean matrices transition / synonymous (meaningful where ndiff == 1)"""
+    nd, ts, syn = _pair_classes(_code(code))
+    return nd.copy(), ts.copy(), syn.copy()
+
+
+def _pair_classes_uncached(code):
     """for the n sense codons of `code`: integer matrix ndiff (number of differing positions)
     and boolean matrices transition / synonymous (meaningful where ndiff == 1)"""
     st = codon_states(code)
@@ -163,6 +185,7 @@ def _sym_from_upper(values, k):
 
 def exchangeabilities(model, **p):
     """(R, pi) of the documented definition, R_ij = Q_ij / pi_j off the diagonal"""
+    model = ALIASES.get(model, model)
     if model == "JC69":
         return np.ones((4, 4)) - np.eye(4), np.full(4, 0.25)
     if model == "GeneralJC69":
